@@ -128,9 +128,10 @@ def replay_case(col, item):
         k = int(k_s)
         for emb_name, metric, tree, leaf, perm, sp in confs:
             if metric == "haversine" and k >= N // 2:
-                # half the circumference sits exactly ON the largest class; a radius beyond it is meaningless
-                # for the arc metric (the tree's reduced distance wraps), so the class is left to the chord metric
-                continue
+                # the arc metric's largest class is queried with EXACTLY half the circumference (a radius beyond it is
+                # meaningless: the tree's reduced distance wraps); written as a bare number, because a unit round trip
+                # may land one ulp above it
+                sp = 0
             conf = {"embedding": emb_name, "metric": metric, "tree": tree, "leaf_size": leaf, "perm": list(perm),
                     "r_spelling": sp}
             try:
@@ -161,7 +162,7 @@ def replay_case(col, item):
         # whole-degree coordinates passed as INTEGER arrays (equator embedding: lat 0, lon multiples of 45)
         for metric in ("minkowski", "haversine"):
             if metric == "haversine" and k >= N // 2:
-                continue
+                pass        # (integer-typed coordinates: same exact radius, bare number)
             conf = {"embedding": "equator", "metric": metric, "integer_typed_coordinates": True, "perm": list(perms[0])}
             try:
                 from typhon.geographical import GeoIndex
